@@ -63,7 +63,10 @@ type Program struct {
 
 // Load type-checks every package of the repository (current working tree) and
 // builds SSA for them.  Dependencies come from export data.
-func Load(repo string, cfg Config) (*Program, error) {
+func Load(repo string, cfg Config) (*Program, error) { return LoadOverlay(repo, cfg, nil) }
+
+// LoadOverlay is Load with some files replaced by the given contents (used for the helper-inlined view).
+func LoadOverlay(repo string, cfg Config, overlay map[string][]byte) (*Program, error) {
 	env := []string{}
 	for _, e := range os.Environ() {
 		if strings.HasPrefix(e, "GOWORK=") || strings.HasPrefix(e, "GOFLAGS=") ||
@@ -81,6 +84,9 @@ func Load(repo string, cfg Config) (*Program, error) {
 		Dir:   repo,
 		Tests: false,
 		Env:   env,
+	}
+	if overlay != nil {
+		pc.Overlay = overlay
 	}
 	if len(cfg.Tags) > 0 {
 		pc.BuildFlags = []string{"-tags=" + strings.Join(cfg.Tags, ",")}
